@@ -8,6 +8,33 @@ HERE = os.path.dirname(os.path.dirname(os.path.abspath(__file__)))
 BASELINE_OFF = ('cd /repo && env -u EXCEL2PYCL_VERIF /venv/bin/python -m pytest -ra -q -p no:cacheprovider '
                 '--timeout=900 --continue-on-collection-errors')
 
+# sentences appended to the level texts (monitors added in later rounds)
+MIXED = (' A further set of shards judges typed random nests over the whole function set that use at least one function of this '
+         'property (one function\'s result flowing into another: vf/gen/exprs.py) against the same reference.')
+HOST = (' Some shards are repeated in a process where every library call runs under a host decimal context of 2-4 digits '
+        '(pipeline.guarded, VERIF_HOST_DECIMAL) - same expectations.')
+EXTRA = {
+    'C01': HOST + ' Operands on other worksheets (titles that are numbers below the sheet count, quoted, address-shaped) supplied by the workbook and by overrides addressed by title or index; mixed-case texts under the six comparisons.',
+    'C03': ' Ring edges of cyclic workbooks are arithmetic steps, bare references in five spellings or a mix; mirror cells close cycles through qualified and absolute references.',
+    'C04': ' The workbook also holds link cells (a formula that is one reference), chains of them and random formulas over them, all of them override targets.',
+    'C05': ' Argument lists of 60-254 arguments and their mutants.',
+    'C06': ' Every argument position of every function takes an argument of 44 kinds in turn (areas spelled right to left, whole columns, other sheets, calls, error literals); part of the whole-workbook workload runs in an interpreter whose locale encoding is ASCII.',
+    'C07': ' Criteria assembled as "text"&expression, literals joined directly by &, payloads that close either quote style and comment out the rest of the line.',
+    'C08': ' The second executor receives its overrides as ONE list that names coordinates repeatedly (other values, other spellings) and must behave like its last-wins normal form.',
+    'C09': ' The sha matrix also spans processes with an ASCII locale encoding, other time zones and UTF-8 mode, over workbooks with non-ASCII titles and texts; the bytes written by write_translation are compared with the returned text.',
+    'C10': ' The same cell on both sides of every operator in four spellings (reflexivity).',
+    'C11': MIXED + HOST + ' Data areas also hold formula cells of every result kind (ROUND of a blank / logical cell, logical and text results).',
+    'C12': MIXED + HOST + ' Date-time cells against date criteria, whole-column sum ranges, tilde runs before wildcards.',
+    'C13': MIXED + ' Conditions are also expressions over the condition cell (starting with a literal, comparing the cell with itself); IFERROR around whole areas and INDEX rows inside aggregates.',
+    'C14': MIXED + ' INDEX with constant positions over areas of this and another sheet; text keys looked up in another case.',
+    'C15': MIXED + HOST,
+    'C16': MIXED + HOST,
+    'C17': MIXED + HOST + ' VALUE of percentages, year-month-day dates and times of day; blank cells as counts.',
+    'C18': ' A third of the workbooks carry a forged size record per worksheet part (understated, boxed, overstated, dropped) or cells touched without a value.',
+    'C19': ' Fragments surrounded by prose brackets (closing ones before the first opening one).',
+    'C20': HOST + ' Generated holiday lists with repeated dates.',
+}
+
 # id -> (technique, level text, level note)
 CHECKS = {
     'C16': ('runtime monitoring: boundary oracle (decimal quantize) over an override sweep + helper postconditions',
@@ -207,6 +234,7 @@ def main():
         if pid not in CHECKS:
             continue
         tech, text, note = CHECKS[pid]
+        text = text + EXTRA.get(pid, '')
         checks.append({
             'property_id': pid,
             'quick_cmd': f'./check {pid} --tier quick',
